@@ -187,7 +187,12 @@ def check_aes(pid, tier, replay=None):
                       "non-empty (op kind, length class) cells x families")
 
 
-AES_THMS = {}
+AES_THMS = {
+    "C02": ["IsalVerif.C02.C02_roundtrip", "IsalVerif.C02.C02_same_tag", "IsalVerif.C02.C02_tag_sizes", "IsalVerif.C02.C02_lengths"],
+    "C03": ["IsalVerif.C03.C03_roundtrip", "IsalVerif.C03.C03_length", "IsalVerif.C03.C03_expanded_enc", "IsalVerif.C03.C03_expanded_dec"],
+    "C04": ["IsalVerif.C04.C04_schedule_shape", "IsalVerif.C04.C04_dec_schedule", "IsalVerif.C04.C04_cbc_roundtrip",
+            "IsalVerif.C04.C04_cbc_dec_schedule", "IsalVerif.C04.C04_cbc_by_groups"],
+}
 
 
 def check_c15(pid, tier, replay=None):
